@@ -112,8 +112,21 @@ func (v *verifier) query(st *State, extraHyps []*sx.T, goal *sx.T) *smt.Query {
 func (v *verifier) finish() {
 	decls, quants := v.e.Prelude(v.sp)
 	consts := append([]smt.Var{}, v.e.Consts()...)
+	// every per-method call log has a non-negative length
+	var logFacts []*sx.T
+	var xmKeys []string
+	for k := range v.e.extraFn {
+		if strings.HasPrefix(k, "xm:") {
+			xmKeys = append(xmKeys, strings.TrimPrefix(k, "xm:"))
+		}
+	}
+	sort.Strings(xmKeys)
+	for _, b := range xmKeys {
+		logFacts = append(logFacts, sx.App(">=", sx.Atom(b), sx.Int(0)))
+	}
 	for _, name := range v.order {
 		for _, q := range v.obls[name].Queries {
+			q.Hyps = append(q.Hyps, logFacts...)
 			q.Decls = decls
 			q.Quants = quants
 			q.Consts = consts
@@ -259,6 +272,7 @@ func (e *Engine) VerifyFunc(pkgPath, key string, modular bool) (rep *FuncReport,
 	}
 	v.names, v.args = names, args
 	v.pre = v.envAt(st, names, args)
+	v.reqs = append(v.reqs, sx.App(">=", sx.Atom("notifs0"), sx.Int(0)), sx.App(">=", sx.Atom("xcalls0"), sx.Int(0)))
 	for _, c := range fs.Clauses {
 		if c.Kind == "requires" {
 			v.reqs = append(v.reqs, v.pre.Tr(c.E).T)
@@ -414,6 +428,7 @@ func (e *Engine) applyContract(fr *frame, st *State, fn *types.Func, decl *ast.F
 		if e.mayLog(fn, 0) { // the ghost logs are framed by the call graph: a callee that cannot log leaves them alone
 			st.notifs = spec.LogVal{Base: e.sym("notifs", "Int").A}
 			st.xcalls = spec.LogVal{Base: e.sym("xcalls", "Int").A}
+			st.facts = append(st.facts, sx.App(">=", sx.Atom(st.notifs.Base), sx.Int(0)), sx.App(">=", sx.Atom(st.xcalls.Base), sx.Int(0)))
 			st.xgen = e.nextGen()
 			st.xm = map[string]spec.LogVal{}
 		}
